@@ -1820,7 +1820,9 @@ func (c S3ApiController) PutActions(ctx *fiber.Ctx) error {
 	acct := ctx.Locals("account").(auth.Account)
 	isRoot := ctx.Locals("isRoot").(bool)
 	contentType := ctx.Get("Content-Type")
-	contentEncoding := ctx.Get("Content-Encoding")
+	// "aws-chunked" is the transfer coding of a streaming upload,
+	// it is not stored with the object
+	contentEncoding := utils.RemoveAwsChunked(ctx.Get("Content-Encoding"))
 	contentDisposition := ctx.Get("Content-Disposition")
 	contentLanguage := ctx.Get("Content-Language")
 	cacheControl := ctx.Get("Cache-Control")
